@@ -579,6 +579,165 @@ __attribute__((noinline)) inline Measure measure(bool msgpack, const std::string
   return m;
 }
 
+// ---- growth families: inputs that get longer without getting deeper
+// For a fixed limit L, family, placement and filter, the stack seen by read()/readBytes() must be the same
+// for every length parameter n (within kGrowthSlack bytes, less than one frame of any routine of the parsers).
+static const long kGrowthSlack = 64;
+
+struct Growth {
+  const char* name;
+  bool msgpack;
+  int kind;  // 0 = JSON filler for the gaps between tokens, 1 = one scalar value, 2 = one container value
+  std::function<std::string(size_t)> make;
+  size_t cap;       // largest length parameter
+  bool stableCode;  // the returned code must not depend on n
+  size_t own;       // nesting depth of the value itself
+};
+
+inline std::vector<Growth> growthFamilies() {
+  std::vector<Growth> G;
+  G.push_back({"ws", false, 0, [](size_t n) { return rep(" \n\t\r", (n + 3) / 4); }, 20000, true, 0});
+#if ARDUINOJSON_ENABLE_COMMENTS
+  G.push_back({"blockc", false, 0, [](size_t n) { return rep("/**/", n); }, 20000, true, 0});
+  G.push_back({"linec", false, 0, [](size_t n) { return rep("//x\n", n); }, 20000, true, 0});
+  G.push_back({"mixc", false, 0, [](size_t n) { return rep("/* a*b */ //\n\t", (n + 1) / 2); }, 20000, true, 0});
+  G.push_back({"longc", false, 0, [](size_t n) { return "/*" + rep("*x/", n) + "*/ //" + rep("/", n) + "\n"; }, 20000, true, 0});
+#endif
+  G.push_back({"string", false, 1, [](size_t n) { return "\"" + rep("a", n) + "\""; }, 20000, true, 0});
+  G.push_back({"escapes", false, 1, [](size_t n) { return "\"" + rep("\\n\\u00e9", (n + 1) / 2) + "\""; }, 20000, true, 0});
+  // more than 63 characters: InvalidInput when parsed, Ok when skipped - only the stack is compared
+  G.push_back({"number", false, 1, [](size_t n) { return rep("1", n); }, 20000, false, 0});
+  G.push_back({"elems", false, 2, [](size_t n) { return "[" + rep("1,", n) + "\"s\"]"; }, 20000, true, 1});
+  G.push_back({"elems-empty", false, 2, [](size_t n) { return "[" + rep("[],{},", n) + "null]"; }, 20000, true, 2});
+  // member lookup makes object parsing quadratic in time: 2000 members at most
+  G.push_back({"members", false, 2, [](size_t n) {
+                 std::string r = "{";
+                 for (size_t i = 0; i < n; i++) r += "\"k" + std::to_string(i) + "\":1,";
+                 return r + "\"z\":null}";
+               }, 2000, true, 1});
+  auto len32 = [](int code, size_t n) { std::string r = B({code}); refmp::be(r, n, 4); return r; };
+  G.push_back({"str32", true, 1, [len32](size_t n) { return len32(0xdb, n) + rep("a", n); }, 20000, true, 0});
+  G.push_back({"bin32", true, 1, [len32](size_t n) { return len32(0xc6, n) + rep("b", n); }, 20000, true, 0});
+  G.push_back({"ext32", true, 1, [len32](size_t n) { return len32(0xc9, n) + B({7}) + rep("e", n); }, 20000, true, 0});
+  G.push_back({"elems", true, 2, [len32](size_t n) { return len32(0xdd, n) + rep(B({0xc0}), n); }, 20000, true, 1});
+  G.push_back({"elems-empty", true, 2, [len32](size_t n) { return len32(0xdd, 2 * n) + rep(B({0x90, 0x80}), n); }, 20000, true, 2});
+  G.push_back({"members", true, 2, [len32](size_t n) {
+                 std::string r = len32(0xdf, n);
+                 for (size_t i = 0; i < n; i++) { r += B({0xa3, 'k'}); r.push_back(char('0' + i % 10)); r.push_back(char('0' + (i / 10) % 10)); r += B({0x01}); }
+                 return r;
+               }, 20000, true, 1});
+  G.push_back({"longkey", true, 2, [len32](size_t n) { return B({0x81}) + len32(0xdb, n) + rep("k", n) + B({0xc0}); }, 20000, true, 1});
+  return G;
+}
+
+struct Placed { std::string name, text; };
+
+// every placement of the family at length n under limit L (L >= 1)
+inline std::vector<Placed> placements(const Growth& g, size_t L, size_t n) {
+  std::vector<Placed> P;
+  const std::string v = g.make(n);
+  if (!g.msgpack) {
+    if (g.kind == 0) {
+      const std::string& f = v;
+      std::string arr = "[" + f + "1" + f + "," + f + "2" + f + "]";
+      std::string obj = "{" + f + "\"a\"" + f + ":" + f + "1" + f + "," + f + "\"b\"" + f + ":" + f + "2" + f + "}";
+      P.push_back({"top", f + "1"});
+      P.push_back({"top-arr", f + "[]"});
+      P.push_back({"arr1", arr});
+      P.push_back({"obj1", obj});
+      if (L >= 2) {
+        P.push_back({"arrL", rep("[", L - 1) + arr + rep("]", L - 1)});
+        P.push_back({"objL", rep("{\"a\":", L - 1) + obj + rep("}", L - 1)});
+      }
+    } else if (g.kind == 1) {
+      P.push_back({"top", v});
+      P.push_back({"arr1", "[0," + v + "]"});
+      P.push_back({"obj1", "{\"a\":" + v + "}"});
+      if (L >= 2) {
+        P.push_back({"arrL", rep("[", L) + v + rep("]", L)});
+        P.push_back({"objL", rep("{\"a\":", L) + v + rep("}", L)});
+      }
+    } else {
+      if (L >= g.own) P.push_back({"d1", v});
+      if (L >= g.own + 1 && L >= 2) {
+        P.push_back({"arrL", rep("[", L - g.own) + v + rep("]", L - g.own)});
+        P.push_back({"objL", rep("{\"a\":", L - g.own) + v + rep("}", L - g.own)});
+      }
+    }
+  } else {
+    const size_t own = g.own;
+    if (g.kind == 1) {
+      P.push_back({"top", v});
+      P.push_back({"arr1", B({0x92, 0x00}) + v});
+      P.push_back({"map1", B({0x81, 0xa1, 'a'}) + v});
+    } else {
+      if (L >= own) P.push_back({"d1", v});
+    }
+    if (L >= own + 1 && L >= 2) {
+      P.push_back({"arrL", rep(B({0x91}), L - own) + v});
+      P.push_back({"mapL", rep(B({0x81, 0xa1, 'a'}), L - own) + v});
+    }
+  }
+  return P;
+}
+
+inline std::string runGrowth(Ctx& C) {
+  const char* filterNames[] = {"none", "true", "false"};
+  const size_t Ns[] = {2, 20, 200, 2000, 20000};
+  const size_t Ls[] = {1, 2, 3, 10, 255};
+  std::vector<Growth> G = growthFamilies();
+  long worst = 0;
+  for (auto& g : G) {
+    const char* fmt = g.msgpack ? "msgpack" : "json";
+    for (size_t L : Ls) {
+      // the set of placements does not depend on n
+      std::vector<Placed> shape = placements(g, L, 2);
+      for (size_t pi = 0; pi < shape.size(); pi++) {
+        for (int fi = 0; fi < 3; fi++) {
+          if (!C.take()) continue;
+          JsonDocument fdocStore;
+          if (fi == 1) fdocStore.set(true);
+          if (fi == 2) fdocStore.set(false);
+          JsonDocument* fdoc = fi ? &fdocStore : nullptr;
+          char key[240];
+          snprintf(key, sizeof key, "stack:fmt=%s|fam=grow-%s@%s|L=%zu|filter=%s", fmt, g.name, shape[pi].name.c_str(), L, filterNames[fi]);
+          C.begin(key);
+          C.nontrivial();
+          Measure ref = measure(g.msgpack, shape[pi].text, fdoc, int(L));
+          C.outcome(std::string(fmt) + ":grow:" + kCodeName[ref.code]);
+          if (g.stableCode && ref.code != kOk) C.fail("code", std::string("n=2 returned ") + kCodeName[ref.code] + " for " + vis(shape[pi].text.substr(0, 80)));
+          for (size_t n : Ns) {
+            if (n == 2 || n > g.cap) continue;
+            Measure m = measure(g.msgpack, placements(g, L, n)[pi].text, fdoc, int(L));
+            if (g.stableCode && m.code != ref.code)
+              C.fail("code", "n=" + std::to_string(n) + " returned " + kCodeName[m.code] + ", n=2 returned " + kCodeName[ref.code]);
+            worst = std::max(worst, std::labs(m.stack - ref.stack));
+            if (std::labs(m.stack - ref.stack) > kGrowthSlack)
+              C.fail("stack-grows-with-length", "length parameter n=" + std::to_string(n) + " used " + std::to_string(m.stack) +
+                                                    " bytes of stack, n=2 used " + std::to_string(ref.stack) + " (same limit, same nesting); " +
+                                                    std::to_string((m.stack - ref.stack) / long(n - 2)) + " bytes per unit of length");
+          }
+          C.end();
+        }
+      }
+    }
+  }
+  C.maxMetrics["stack_growth_with_length_max_bytes"] = double(worst);
+  size_t nj = 0, nm = 0;
+  for (auto& g : G) (g.msgpack ? nm : nj)++;
+  return std::to_string(nj) + " JSON growth families {whitespace" +
+#if ARDUINOJSON_ENABLE_COMMENTS
+         ", n block comments, n line comments, mixed comments, two comments of length 3n" +
+#else
+         " (comment families need ARDUINOJSON_ENABLE_COMMENTS=1: not in this build)" +
+#endif
+         ", long string, string of n escapes, n-digit number, n scalar elements, n empty containers as elements, n members (<= 2000)} and " +
+         std::to_string(nm) + " MessagePack growth families {str32, bin32, ext32 of n bytes, array32 of n nil, of 2n empty containers, map32 of n members, "
+         "map with an n-byte key} x placements {before the top-level value, in every gap between the tokens of an array / object at depth 1 and at depth L; "
+         "values at top level, inside an array / object at depth 1 and at depth L} x L in {1, 2, 3, 10, 255} x filters {none, true, false} x "
+         "n in {2, 20, 200, 2000, 20000}: stack(n) within " + std::to_string(kGrowthSlack) + " bytes of stack(2)";
+}
+
 inline void runStack(Ctx& C) {
 #if defined(__has_feature)
 #if __has_feature(address_sanitizer)
@@ -604,20 +763,6 @@ inline void runStack(Ctx& C) {
          for (size_t i = 0; i < d; i++) r += (i % 2 == 0) ? B({0x91}) : B({0x81, 0xa1, 'a'});
          return r;
        }},
-  };
-  // inputs of depth <= 1 whose LENGTH n varies
-  std::vector<SFam> flats = {
-      {"flat-array", false, [](size_t n) { return "[" + rep("1,", n) + "1]"; }},
-      {"flat-string", false, [](size_t n) { return "\"" + rep("a", n) + "\""; }},
-      {"flat-object", false, [](size_t n) {
-         std::string r = "{";
-         for (size_t i = 0; i < n; i++) r += "\"k" + std::to_string(i) + "\":\"v\",";
-         return r + "\"z\":null}";
-       }},
-      {"flat-ws", false, [](size_t n) { return rep(" ", n) + "[" + rep("\n", n) + "]"; }},
-      {"flat-array32", true, [](size_t n) { std::string r = B({0xdd}); refmp::be(r, n, 4); return r + rep(B({0xc0}), n); }},
-      {"flat-str32", true, [](size_t n) { std::string r = B({0xdb}); refmp::be(r, n, 4); return r + rep("a", n); }},
-      {"flat-bin32", true, [](size_t n) { std::string r = B({0xc6}); refmp::be(r, n, 4); return r + rep("a", n); }},
   };
   const char* filterNames[] = {"none", "true", "false"};
   const bool T = C.thorough();
@@ -686,42 +831,13 @@ inline void runStack(Ctx& C) {
       }
     }
   }
-  // flat inputs: stack independent of the length
-  for (auto& fam : flats) {
-    const char* fmt = fam.msgpack ? "msgpack" : "json";
-    for (int fi = 0; fi < 3; fi++) {
-      JsonDocument fdocStore;
-      if (fi == 1) fdocStore.set(true);
-      if (fi == 2) fdocStore.set(false);
-      JsonDocument* fdoc = fi ? &fdocStore : nullptr;
-      for (int L : {1, 10, 255}) {
-        if (!C.take()) continue;
-        char key[200];
-        snprintf(key, sizeof key, "stack:fmt=%s|fam=%s|L=%d|filter=%s", fmt, fam.name, L, filterNames[fi]);
-        C.begin(key);
-        Measure small = measure(fam.msgpack, fam.make(3), fdoc, L);
-        C.outcome(std::string(fmt) + ":" + kCodeName[small.code]);
-        if (small.code != kOk) C.fail("code", std::string("flat input returned ") + kCodeName[small.code]);
-        // (member lookup makes object parsing quadratic in time: the object family stays at 3000 members)
-        // and a string cannot exceed 65535 bytes in the default configuration)
-        const size_t big = std::string(fam.name) == "flat-object" ? 3000 : (T ? 60000 : 20000);
-        for (size_t n : {size_t(10), size_t(1000), big}) {
-          Measure m = measure(fam.msgpack, fam.make(n), fdoc, L);
-          if (m.code != kOk) C.fail("code", "flat input n=" + std::to_string(n) + " returned " + kCodeName[m.code]);
-          if (m.stack > small.stack + 64)
-            C.fail("stack-depends-on-input", "flat input of length parameter " + std::to_string(n) + " used " + std::to_string(m.stack) +
-                                                 " bytes of stack, the same shape with n=3 used " + std::to_string(small.stack));
-        }
-        C.end();
-      }
-    }
-  }
+  // inputs whose LENGTH grows without nesting: stack independent of the length
+  const std::string growthBound = runGrowth(C);
   C.maxMetrics["stack_bytes_per_level_max"] = double(worstPerLevel);
   C.maxMetrics["stack_bytes_at_L255_max"] = double(worstAt255);
   C.bound(std::string("stack: 13 nested families (JSON arr/obj/alternating/sibling, MessagePack fixarray/array16/array32/fixmap/map32/alternating) x "
                       "filters {none, true, false(skip path)} x every L in 0..255: stack(L,d) measured for d in {0, 1, L/2, L-1, L, L+1, L+2, 2L+10, 5000") +
-          (T ? ", L+3, 1000, 20000" : "") + "}; linear model a+b*L taken from L=1,2,3; 7 flat families (long array/string/object/whitespace, "
-          "array32/str32/bin32) x 3 filters x L in {1,10,255} x length parameter {3, 10, 1000, " + (T ? "60000" : "20000") + " (3000 for the object)}; custom reader only, non-sanitized -O1 build");
+          (T ? ", L+3, 1000, 20000" : "") + "}; linear model stack(0)+b*L taken from L=0..3; " + growthBound + "; custom reader only, non-sanitized -O1 build");
 }
 
 inline void run(Ctx& C) {
